@@ -98,9 +98,15 @@ def replay(pid, path, ck):
 # ------------------------------------------------------------------ stream material shared by several properties
 DICT_FIELDS = [0, 1, 4095, 4096, 4097, 8192, 65536, 1 << 20, 0x7FFFFFFF, 0xFFFFFFFF]
 
+def junk_field(rng):
+    """the 8 header bytes that ReadHeaderButUseProvided skips: all ones ("unknown"), zero, or garbage"""
+    return rng.choice([b'\xff' * 8, b'\xff' * 8, bytes(8), rng.bytes(8), rng.bytes(8)])
+
 def rand_props(rng, lzma2=False):
     if rng.chance(1, 4):
         return (3, 0, 2)
+    if rng.chance(1, 8):       # the corners: properties byte 224, pb = 4 position mask, lc = 8, lp = 4
+        return rng.choice([(4, 0, 4), (0, 4, 4), (0, 0, 0), (0, 0, 4), (4, 0, 0), (0, 4, 0)] if lzma2 else [(8, 4, 4), (8, 4, 4), (0, 0, 0), (8, 0, 0), (0, 4, 0), (0, 0, 4), (8, 4, 0)])
     while True:
         lc, lp, pb = rng.range(0, 8), rng.range(0, 4), rng.range(0, 4)
         if not lzma2 or lc + lp <= 4:
@@ -205,11 +211,11 @@ def run_C01(ck):
         opt, data = 'rfh', b
         r = rng.below(6)
         if r == 0 and s['style'] != 'marker':
-            opt = 'rhp:%d' % s['n']; data = b[:5] + rng.bytes(8) + b[13:]
+            opt = 'rhp:%d' % s['n']; data = b[:5] + junk_field(rng) + b[13:]
         elif r == 1:
             opt = 'up:%s' % ('none' if s['style'] == 'marker' else s['n']); data = b[:5] + b[13:]
         elif r == 2 and s['style'] == 'marker':
-            opt = 'rhp:none'; data = b[:5] + rng.bytes(8) + b[13:]
+            opt = 'rhp:none'; data = b[:5] + junk_field(rng) + b[13:]
         trail = b''
         if s['style'] == 'sized' and rng.chance(1, 3):
             trail = rng.bytes(rng.range(1, 30))
@@ -319,6 +325,37 @@ def gen_chunk_seq(rng, nchunks, big_size=None):
         first = False
     return '/'.join(chunks), stats
 
+_MAXPACK = {}
+def max_packed_stream(rng):
+    """a single-chunk LZMA2 stream whose compressed-size field is 0xFFFF (payload of exactly 65536 bytes).  The payload is
+    produced by the crate's own literal-only encoder (the model's reference encoder is quadratic in the history and far too slow
+    for 65 000 symbols); the expected output is the encoder's input, and the model decodes the stream like any other input.
+    Length found by bisection; cached per run.  -> dict(bytes, out, stats, big, ref) or None"""
+    if 'v' in _MAXPACK: return _MAXPACK['v']
+    data = Rng(12345).bytes(66000)
+    def payload(n):
+        r = parse(run_impl(['lzma_enc opt=wh:%d in=%s' % (n, hx(data[:n]))])[0])
+        if r.get('verdict') != 'ok': return None
+        return unhx(r['out'])[13:]
+    lo, hi, best = 64000, 65536, None
+    while lo <= hi:
+        mid = (lo + hi) // 2
+        pl = payload(mid)
+        if pl is None: break
+        if len(pl) == 65536: best = (mid, pl); break
+        if len(pl) < 65536: lo = mid + 1
+        else: hi = mid - 1
+    if best is None:
+        for n in range(max(64000, lo - 8), min(65536, lo + 8) + 1):
+            pl = payload(n)
+            if pl is not None and len(pl) == 65536: best = (n, pl); break
+    if best is None:
+        _MAXPACK['v'] = None; return None
+    n, pl = best
+    b = bytes([0xE0 | ((n - 1) >> 16)]) + struct.pack('>H', (n - 1) & 0xFFFF) + struct.pack('>H', 0xFFFF) + bytes([0x5D]) + pl + b'\x00'
+    _MAXPACK['v'] = {'bytes': b, 'out': data[:n], 'stats': {'Z3': 1}, 'big': None, 'ref': 'single chunk with compressed-size field 0xFFFF (payload from the crate\'s encoder)'}
+    return _MAXPACK['v']
+
 def gen_lzma2_streams(rng, count, big_sizes=()):
     reqs, metas = [], []
     bigs = list(big_sizes)
@@ -365,8 +402,10 @@ def exact_oracle(expected):
 def run_C02(ck):
     rng = Rng(ck.seed).fork('C02')
     n = 250 if ck.tier == 'quick' else 2500
-    bigs = [65536, 131072, 65537, 196608, 262144, 131072] if ck.tier == 'quick' else [65536 * k for k in range(1, 33)] + [65535, 65537, 2097152]
+    bigs = [65536, 131072, 65537, 196608, 262144, 2097152] if ck.tier == 'quick' else [65536 * k for k in range(1, 33)] + [65535, 65537, 2097152]
     streams = gen_lzma2_streams(rng, n, bigs)
+    mp = max_packed_stream(rng)
+    if mp: streams.append(mp); ck.count('chunk_with_packed_size_0xFFFF')
     cases = []
     for s in streams:
         for st, v in s['stats'].items(): ck.count('chunk_' + st, v)
@@ -410,12 +449,18 @@ def gen_xz_files(rng, count, lz2_pool, checks=(0, 1, 4)):
         for _ in range(nb):
             s = rng.choice(lz2_pool)
             width = rng.choice([None, None, None, 2, 3, 5, 9])
-            hp = rng.choice([0, 0, 0, 1, 2, 7, 40, 200]) if width is None else rng.choice([0, 1])
-            try:
-                blk = XzBlock(s['bytes'], s['out'], with_packed=rng.chance(1, 2), with_unpacked=rng.chance(1, 2),
-                              header_pad=hp, mb_width=width)
-                xz_block_bytes(blk, check)
-            except ValueError:
+            hp = rng.choice([0, 0, 0, 1, 2, 7, 40, 200, 'max']) if width is None else rng.choice([0, 1])
+            wp, wu = rng.chance(1, 2), rng.chance(1, 2)
+            blk = None
+            # 'max': the largest padding that fits, i.e. the header size byte 0xFF (1024-byte header)
+            for hp_ in ([253, 252, 251, 250, 249] if hp == 'max' else [hp]):
+                try:
+                    blk = XzBlock(s['bytes'], s['out'], with_packed=wp, with_unpacked=wu, header_pad=hp_, mb_width=width)
+                    xz_block_bytes(blk, check)
+                    break
+                except ValueError:
+                    blk = None
+            if blk is None:
                 blk = XzBlock(s['bytes'], s['out'])
             blocks.append(blk)
         mbw = rng.choice([None, None, 3, 9])
@@ -775,6 +820,11 @@ def run_C04(ck):
             add('lzma_enc', data, opt, rng.choice(RDS), rng.choice(['all', 'all', '1', '2,5']))
         add('lzma2_enc', data, None, rng.choice(RDS), rng.choice(['all', '1', '3,1']))
         add('xz_enc', data, None, rng.choice(RDS), rng.choice(['all', '1', '3,1', '7']))
+    # lengths around the multibyte-integer boundaries of the XZ index (sizes 127/128/129 and 16383/16384/16385, as unpacked
+    # size and - shifted by header, payload overhead and check - as unpadded size): every length in the small band, a sweep of the large one
+    for n in list(range(100, 136)) + list(range(16356, 16396, 3 if quick else 1)) + [16383, 16384, 16385, 16500, 16511, 16512]:
+        data = rng.bytes(n) if rng.chance(2, 3) else bytes([rng.below(256)]) * n
+        add('xz_enc', data, None, rng.choice(['all', '4096', 'std:slice']), 'all')
     for n in edge:
         data = rng.bytes(n) if n < 70000 else bytes([rng.below(256)]) * n
         for rd in ['all', '65536', '1' if n <= 65537 else '4096', '65535,2', '8192']:
@@ -835,8 +885,13 @@ def run_C04(ck):
                     ck.violation('oracle', 'xz -dc does not decode xz_compress output back to the input', replay_dict(c))
 
 # ------------------------------------------------------------------ streaming helpers
-def stream_calls(data, lens, tail='x'):
-    return ';'.join(['W:%s' % hx(p) for p in pieces(data, lens)] + [tail])
+def stream_calls(data, lens, tail='x', rng=None):
+    calls = []
+    for p in pieces(data, lens):
+        calls.append('W:%s' % hx(p))
+        # other API calls between the writes must not change what is decoded: flush, get_output, sink length
+        if rng is not None and rng.chance(1, 5): calls.append(rng.choice(['f', 'o', 'g']))
+    return ';'.join(calls + [tail])
 
 def corrupt(rng, b, lo=0):
     if len(b) <= lo: return b
@@ -856,6 +911,7 @@ def lzma_variants(rng, s):
     out.append(('trailing', b + rng.bytes(rng.range(1, 25)), 'rfh'))
     n = s['n']
     out.append(('rhp', b, 'rhp:%s' % ('none' if s['style'] == 'marker' else n)))
+    out.append(('rhp_junk_field', b[:5] + junk_field(rng) + b[13:], 'rhp:%s' % ('none' if s['style'] == 'marker' else n)))
     out.append(('rhp_wrong', b, 'rhp:%d' % rng.choice([0, max(0, n - 1), n + 1])))
     out.append(('up', b[:5] + b[13:], 'up:%s' % ('none' if s['style'] == 'marker' else n)))
     out.append(('up_wrong', b[:5] + b[13:], 'up:%d' % rng.choice([0, max(0, n - 1), n + 1, n + 300])))
@@ -877,7 +933,7 @@ def run_C05(ck):
             one = {'line': 'lzma_dec opt=%s in=%s' % (opt, hx(data)), 'meta': {'kind': kind, 'opt': opt}}
             cases.append(one)
             for lens in cuts:
-                cases.append({'line': 'stream opt=%s calls=%s' % (opt, stream_calls(data, lens)),
+                cases.append({'line': 'stream opt=%s calls=%s' % (opt, stream_calls(data, lens, rng=rng if rng.chance(1, 3) else None)),
                               'meta': {'kind': kind, 'opt': opt, 'pieces': lens if len(lens) < 40 else len(lens)}, 'oneshot': one, 'n': len(data), 'npieces': len(lens)})
                 ck.count('kind_' + kind); ck.count('opt_' + opt.split(':')[0])
     cases.append({'line': 'stream opt=rfh calls=x', 'meta': {'kind': 'empty'}, 'empty': True})
@@ -949,6 +1005,8 @@ def run_C08(ck):
                         cases.append({'line': 'lzma_dec opt=%s in=%s' % (opt, hx(data)), 'meta': m, 'expect': expect, 'true_out': out, 'paylen': len(payload)})
                     else:
                         lens = chunkings(rng, len(data), rng.choice(['whole', 'single', 'random', 'early']))
+                        if trailing and rng.chance(1, 2):
+                            lens = [len(data) - len(trailing), len(trailing)]        # the trailing bytes arrive in a write of their own
                         cases.append({'line': 'stream opt=%s calls=%s' % (opt, stream_calls(data, lens)), 'meta': m, 'expect': expect, 'true_out': out, 'stream': True})
                     ck.count('eff_' + ('none' if eff is None else 'eq' if eff == T else 'gt' if eff > T else 'lt')); ck.count('opt_' + opt.split(':')[0])
     run_both(ck, cases)
@@ -1249,9 +1307,38 @@ def run_C11(ck):
             hdr = bytes([lc + 9 * (lp + 5 * pb)]) + struct.pack('<I', 4096) + struct.pack('<Q', 0)
             cases.append({'line': 'lzma_dec opt=rfh in=%s rd=%s' % (hx(hdr + bytes(5) + trail), RD()), 'meta': {'kind': 'lzma_sized_empty', 'trail': len(trail)}, 'expect_pos': 18, 'expect_out': b''})
             cases.append({'line': 'raw_lzma lc=%d lp=%d pb=%d dict=4096 size=0 ops=d:%s' % (lc, lp, pb, hx(bytes(5) + trail)), 'meta': {'kind': 'raw_sized_empty', 'trail': len(trail)}, 'raw_pos': 5})
+    # a reused raw decoder whose size mode is switched by reset: bounded -> end marker (reset(Some(None))) and back; the
+    # member is followed by foreign bytes, and the result (verdict, output, reader position) must be that of a fresh decoder
+    reqs, metas = [], []
+    for k in range(12 if quick else 80):
+        lc, lp, pb = rand_props(rng)
+        pbld = random_program(rng, rng.range(1, 30), 4096, lit_bias=2)
+        marker = rng.chance(1, 2)
+        reqs.append('ref_payload lc=%d lp=%d pb=%d window=4096 prog=%s' % (lc, lp, pb, pbld.text(marker)))
+        metas.append(((lc, lp, pb), pbld.n, marker))
+    for enc, (props, n, marker) in zip(ref_encode(reqs), metas):
+        if enc is None: raise InfraError('ref encoder rejected a C11 raw program')
+        lc, lp, pb = props
+        trail = rng.choice([b'', rng.bytes(rng.range(1, 25)), bytes(rng.range(1, 8))])
+        want = 'none' if marker else str(n)
+        reset = 'rn' if want == 'none' else 'rs:%s' % want
+        fresh = {'line': 'raw_lzma lc=%d lp=%d pb=%d dict=4096 size=%s ops=d:%s' % (lc, lp, pb, want, hx(enc[0] + trail)), 'meta': {'kind': 'raw_fresh', 'trail': len(trail)}, 'raw_pair': True}
+        cases.append(fresh)
+        # always: previously bounded at exactly the member's length (the stale bound that would make a missed mode switch invisible
+        # in the output), and one other starting mode
+        for start in (str(n), rng.choice(['none', str(n + 1), '0', str(max(0, n - 1))])):
+            reused = {'line': 'raw_lzma lc=%d lp=%d pb=%d dict=4096 size=%s ops=%s;d:%s' % (lc, lp, pb, start, reset, hx(enc[0] + trail)), 'meta': {'kind': 'raw_reused', 'trail': len(trail), 'start': start, 'reset': reset}, 'raw_pair': True, 'fresh': fresh}
+            cases.append(reused); ck.count('raw_reset_size_mode')
     run_both(ck, cases)
     for c in cases:
         ck.note_case(c['line'], c['meta']['trail'] > 0)
+        if c.get('raw_pair'):
+            def oracle_pair(c):
+                if 'fresh' not in c: return None
+                a = c['r'].get('res', '').split(';')[-1]; f_ = c['fresh']['r'].get('res', '').split(';')[-1]
+                if a != f_: return 'after %s the decoder consumed / returned %s where a fresh decoder gives %s' % (c['meta']['reset'], a[:60], f_[:60])
+                return None
+            judge(ck, c, ['res'], oracle_pair, 'both'); continue
         def oracle(c):
             r = c['r']
             if 'raw_pos' in c:
@@ -1578,7 +1665,7 @@ def run_C15(ck):
         size = 'none' if s['style'] == 'marker' else str(s['n'])
         opt, hdr = rng.choice([('rfh', 13), ('rfh', 13), ('rhp:' + size, 13), ('up:' + size, 5), ('up:' + size, 5)])
         if hdr == 5: b = b[:5] + b[13:]
-        elif opt.startswith('rhp'): b = b[:5] + rng.bytes(8) + b[13:]
+        elif opt.startswith('rhp'): b = b[:5] + junk_field(rng) + b[13:]
         cuts = range(len(b) + 1) if len(b) < 60 and not quick else sorted(set([0, 1, 4, 5, 9, 10, 12, 13, 17, 18, 19, len(b)] + [rng.range(0, len(b)) for _ in range(8)]))
         for cut in cuts:
             if cut > len(b): continue
@@ -1628,8 +1715,8 @@ def run_C16(ck):
         sopt, hdr = rng.choice([('rfh', 13), ('rfh', 13), ('rhp:' + size, 13), ('up:' + size, 5), ('up:' + size, 5)])
         if s.get('tiny'): sopt, hdr = rng.choice([('up:none', 5), ('up:none', 5), ('rfh', 13)])
         if hdr == 5: b = b[:5] + b[13:]
-        elif sopt.startswith('rhp'): b = b[:5] + rng.bytes(8) + b[13:]
-        variants = [('corrupt', corrupt(rng, b, hdr)), ('bad_header', bytes([rng.range(225, 255)]) + b[1:]), ('valid', b)]
+        elif sopt.startswith('rhp'): b = b[:5] + junk_field(rng) + b[13:]
+        variants = [('corrupt', corrupt(rng, b, hdr)), ('bad_header', bytes([rng.choice([225, 225, 226, 255, rng.range(225, 255)])]) + b[1:]), ('valid', b)]
         if s.get('tiny'):
             variants = [('marker_then_garbage', b + rng.bytes(rng.range(1, 6))), ('marker_then_garbage', b + rng.bytes(rng.range(1, 30)))]
         if s['style'] == 'sized':
@@ -1685,7 +1772,7 @@ def run_C16(ck):
         for sopt, hdr in (('rfh', 13), rng.choice([('rhp:%d' % cut, 13), ('up:%d' % cut, 5)])):
             data = b
             if hdr == 5: data = b[:5] + b[13:]
-            elif sopt.startswith('rhp'): data = b[:5] + rng.bytes(8) + b[13:]
+            elif sopt.startswith('rhp'): data = b[:5] + junk_field(rng) + b[13:]
             lens = chunkings(rng, len(data), rng.choice(['whole', 'random', 'bytes', 'single']))
             if rng.chance(1, 3):
                 kk = rng.choice([7, 9, 17, 18, 34, 51, 3, 13]); lens = [kk] * (len(data) // kk + 1)
